@@ -188,7 +188,58 @@ def main():
                               dict(rep, clause="calibrate-selection", op=[si, oi]))
           if len(samples) < 3:
             samples.append(dict(rep, predicted=sorted(predicted)))
+  # ---------------- "quantize everything statically except X": a recipe in its JSON form (string keys, as a saved recipe holds them)
+  # with an explicit no_quantize rule; calibration must skip exactly the operators quantization skips
+  nexcept = 0
+  srq_dict = json.loads(json.dumps(cfgs["srq"].to_dict()))
+  from ai_edge_quantizer import algorithm_manager
+  for mname, (scn, (model, info)) in mods.items():
+    proj = project.project(model)
+    pairs = component_scopes(model)
+    for pat in common.sample_keep(pats, 14 if args.tier == "quick" else 10**6, args.seed + 1):
+      for osel in ("*", "FULLY_CONNECTED", "ADD", "TANH", "OUTPUT"):
+        rec = [{"regex": ".*", "operation": "*", "algorithm_key": "min_max_uniform_quantize", "op_config": srq_dict},
+               {"regex": pat, "operation": osel, "algorithm_key": "no_quantize"}]
+        rep = {"property": "C10", "model": mname, "regex": pat, "operation": osel, "config": "'*' static + no_quantize (JSON form)"}
+        nexcept += 1
+        predicted, k = set(), 0
+        for si, sub in enumerate(scn["subs"]):
+          codes = scn["codes"][si] + ["INPUT", "OUTPUT"]
+          for oi, code in enumerate(codes):
+            key, sc_cal, sc_q = pairs[k]
+            k += 1
+            try:
+              algorithm_manager.check_op_quantization_config("min_max_uniform_quantize", Q.TFLOperationName(code), cfgs["srq"])
+              sup = True
+            except ValueError:
+              sup = False
+            if sup and not (re.search(pat, sc_q) is not None and osel in ("*", code)):
+              predicted.add((si, oi))
+        try:
+          q = quantizer.Quantizer(model, rec)
+          cal = None
+          for si, sub in enumerate(scn["subs"]):
+            sig = proj["sigs"][si]
+            data = [{n: rng.normal(size=proj["subs"][si]["tensors"][t]["shape"]).astype(np.float32) for n, t in sig["ins"]} for _ in range(2)]
+            cal = q.calibrate(data, signature_key=sig["key"], previous_calibration_result=cal)
+          res = q.quantize(cal)
+        except Exception as e:  # pylint: disable=broad-except
+          msg = "%s: %s" % (type(e).__name__, str(e)[:200])
+          if "share the same buffer" in msg:
+            continue
+          chk.violation("calibrate() then quantize() failed for an accepted recipe with a no_quantize rule (%s)" % msg, dict(rep, clause="except-recipe"))
+          continue
+        outp = project.project(bytes(res.quantized_model))
+        for si, sub in enumerate(scn["subs"]):
+          tens_out = outp["subs"][si]["tensors"]
+          for oi, o in enumerate(sub["ops"]):
+            consts_ = [t for t in o["ins"] if t != -1 and sub["trole"][t] in ("w", "c")]
+            touched = any(tens_out[t]["dt"] != "f32" for t in o["outs"]) or any(tens_out[t]["dt"] != "f32" for t in consts_)
+            if touched != ((si, oi) in predicted):
+              chk.violation("operator %d of signature %d is %squantised under '*' static + no_quantize %r/%s" % (oi, si, "" if touched else "not ", pat, osel),
+                            dict(rep, clause="except-selection", op=[si, oi]))
   chk.cov.update({
+      "except_recipes_run": nexcept,
       "states": r.distinct, "transitions": r.generated, "traces_validated_against_impl": nrun, "needed_calibration": ncal,
       "patterns": len(pats), "scope_pairs": len(A["scope_pairs"]), "models": list(mods),
       "evaluations": nrun, "distinct_nontrivial": ncal,
